@@ -18,14 +18,15 @@ Inductive tcase :=
 | CPFloat (s : list Z) (outbits : Z)           (* parseFloat *)
 | CPInt   (s : list Z) (radix outbits : Z)     (* parseInt *)
 | CLit    (s : list Z) (res : Z)               (* numeric literal; -1 = error *)
+| CSeq (steps : list tcase)                   (* conversions run in this order in ONE process/runtime *)
 | CFail.
 
 Definition canon_bits (x : f64) : Z := to_bits x.     (* S754_nan |-> 0x7FF8000000000000 *)
 
-Inductive answer := AStr (l : list Z) | ABits (b : Z) | AValid (ok : bool) | ANone.
+Inductive answer := AStr (l : list Z) | ABits (b : Z) | AValid (ok : bool) | ANone | ASeq (l : list answer).
 
 (* what the model says *)
-Definition expected (c : tcase) : answer :=
+Definition expected1 (c : tcase) : answer :=
   match c with
   | CToStr b _ => AStr (to_string (of_bits b))
   | CToExpS b _ => AStr (to_exponential_shortest (of_bits b))
@@ -39,6 +40,7 @@ Definition expected (c : tcase) : answer :=
   | CPInt s r _ => ABits (canon_bits (parse_int s r))
   | CLit s _ => ABits (match numeric_literal s with Some v => canon_bits v | None => -1 end)
   | CFail => ANone
+  | CSeq _ => ANone
   end.
 
 Definition observed (c : tcase) : answer :=
@@ -47,6 +49,7 @@ Definition observed (c : tcase) : answer :=
   | CRadix _ _ _ => AValid true
   | CRound _ o | CNum _ o | CPFloat _ o | CPInt _ _ o | CLit _ o => ABits o
   | CFail => AValid false
+  | CSeq _ => AValid false
   end.
 
 Definition answer_eqb (a b : answer) : bool :=
@@ -57,7 +60,14 @@ Definition answer_eqb (a b : answer) : bool :=
   | _, _ => false
   end.
 
-Definition check_case (c : tcase) : bool := answer_eqb (observed c) (expected c).
+Definition check1 (c : tcase) : bool := answer_eqb (observed c) (expected1 c).
+
+(* a sequence is right iff every step is: each conversion is a pure function of its own input, so the
+   model's answer for a step does not depend on the steps before it *)
+Definition check_case (c : tcase) : bool :=
+  match c with CSeq l => forallb check1 l | _ => check1 c end.
+Definition expected (c : tcase) : answer :=
+  match c with CSeq l => ASeq (map expected1 l) | _ => expected1 c end.
 
 Fixpoint mismatch_from (i : N) (cs : list tcase) : list N :=
   match cs with
